@@ -343,6 +343,56 @@ func (x *Extractor) Extract(fn *types.Func, encode bool) (*Seq, error) {
 	return seq, nil
 }
 
+// ExtractFunc analyses a package-level helper whose parameters are a packet writer or reader and values (headers): the
+// writer / reader parameters are the wire, every struct parameter is the root of its own field paths.
+func (x *Extractor) ExtractFunc(fn *types.Func, encode bool) (*Seq, error) {
+	decl, pkg := x.Prog.FuncDecl(fn)
+	if decl == nil || decl.Body == nil {
+		return nil, fmt.Errorf("no declaration for %s", fn.FullName())
+	}
+	seq := &Seq{Fn: fn, Decl: decl, Pkg: pkg, Guard: -1}
+	w := &walker{x: x, env: map[types.Object]val{}, seq: seq, encode: encode}
+	w.ops = &seq.Ops
+	w.frames = []*frame{{info: pkg.TypesInfo, pkg: pkg}}
+	for _, f := range decl.Type.Params.List {
+		for _, n := range f.Names {
+			obj, _ := pkg.TypesInfo.Defs[n].(*types.Var)
+			if obj == nil {
+				continue
+			}
+			t := obj.Type()
+			if pt, ok := t.(*types.Pointer); ok {
+				if nt := namedOf(pt.Elem()); nt != nil && nt.Obj().Pkg() != nil && nt.Obj().Pkg().Path() == load.Module+"/packet" {
+					switch nt.Obj().Name() {
+					case "Writer":
+						w.env[obj] = vWriter{}
+						continue
+					case "Reader":
+						w.env[obj] = vReader{}
+						continue
+					}
+				}
+			}
+			if derefStruct(t) != nil {
+				w.env[obj] = vPath{P: Path{Root: &Root{Name: obj.Name(), Recv: true}}}
+			}
+		}
+	}
+	if decl.Type.Results != nil {
+		for _, f := range decl.Type.Results.List {
+			for _, n := range f.Names {
+				if obj := pkg.TypesInfo.Defs[n]; obj != nil {
+					if _, ok := obj.Type().Underlying().(*types.Struct); ok {
+						w.env[obj] = vStruct{root: &Root{Name: n.Name}}
+					}
+				}
+			}
+		}
+	}
+	w.block(decl.Body.List)
+	return seq, nil
+}
+
 func (w *walker) block(list []ast.Stmt) {
 	for _, s := range list {
 		w.stmt(s)
